@@ -219,7 +219,10 @@ class SimpleGP:
     ):
         recorders: list[SearchRecorder] = []
         if csv_extra_fields:
-            csv_extra_fields2 = {cb: lambda t, i, p: csv_extra_fields[cb](i.get_phenotype()) for cb in csv_extra_fields}
+            # Bind each callback per lambda: closing over the loop variable would apply the last one to every field.
+            csv_extra_fields2 = {
+                name: lambda t, i, p, cb=cb: cb(i.get_phenotype()) for name, cb in csv_extra_fields.items()
+            }
         else:
             csv_extra_fields2 = None
         if csv_output:
